@@ -14,6 +14,7 @@ from .. import anf, lints
 from .common import struct_ob, formula_ob, guard, last_return, U
 from . import mcmc
 from ..report import AnalysisError
+from ..term import Resolver, pmatch, abstract
 
 FLOORS = {"slice-form": 9, "no-squeeze": 9, "parallel-arrays": 1, "interval-cut": 1,
           "none-value": 1, "marginal-passthrough": 1}
@@ -139,11 +140,34 @@ def _row_index(sub):
     return U(first), rest_ok
 
 
+def _peel(term, name):
+    """term = name[i1][i2]...  ->  [text(i1), text(i2), ...]  (row index only; None if it is not such a chain or indexes other axes)"""
+    ops = []
+    t = term
+    while isinstance(t, ast.Subscript):
+        idx, rest_ok = _row_index(t)
+        if not rest_ok:
+            return None
+        ops.insert(0, str(idx))
+        t = t.value
+    if isinstance(t, ast.Name) and t.id == name:
+        return ops
+    return None
+
+
 def _parallel(prog, c, fn):
+    """sample and probs are read with the same burn, thinned alike, and then undergo the same row selections in the same order."""
     rel = c.module.relpath
     out = []
+    rz = Resolver(fn, prog, c.module, c)
     ops = {"sample": [], "probs": []}
     problems = []
+    rets = rz.returns()
+    names = ("sample", "probs")
+    if len(rets) == 1 and isinstance(rets[0].value, ast.Tuple) and len(rets[0].value.elts) == 2 \
+            and all(isinstance(e, ast.Name) for e in rets[0].value.elts):
+        names = tuple(e.id for e in rets[0].value.elts)
+    role = dict(zip(names, ("sample", "probs")))
 
     def visit(stmts, cond):
         for st in stmts:
@@ -151,25 +175,34 @@ def _parallel(prog, c, fn):
                 visit(st.body, cond + [U(st.test)])
                 visit(st.orelse, cond + ["not " + U(st.test)])
                 continue
-            if not isinstance(st, ast.Assign) or len(st.targets) != 1 or not isinstance(st.targets[0], ast.Name):
+            if not isinstance(st, ast.Assign) or len(st.targets) != 1:
                 continue
-            name = st.targets[0].id
-            if name not in ops:
-                continue
-            v = st.value
-            if isinstance(v, ast.Call) and U(v.func) in ("self.get_sample", "self.get_probabilities"):
-                kw = {k.arg: U(k.value) for k in v.keywords}
-                want = "self.get_sample" if name == "sample" else "self.get_probabilities"
-                if U(v.func) != want:
-                    problems.append(f"`{name}` is read with {U(v.func)}")
-                ops[name].append(("get", kw.get("burn", "<default>"), kw.get("thin", "1"), tuple(cond)))
-            elif isinstance(v, ast.Subscript) and isinstance(v.value, ast.Name) and v.value.id == name:
-                idx, rest_ok = _row_index(v)
-                if not rest_ok:
-                    problems.append(f"`{U(st)}` indexes more than the row axis")
-                ops[name].append(("idx", idx, None, tuple(cond)))
-            else:
-                problems.append(f"`{U(st)}` is not a row re-indexing of `{name}`")
+            tgt, val = st.targets[0], st.value
+            pairs = []
+            if isinstance(tgt, ast.Name):
+                pairs = [(tgt.id, val)]
+            elif isinstance(tgt, ast.Tuple) and isinstance(val, ast.Tuple) and len(tgt.elts) == len(val.elts):
+                pairs = [(t.id, v) for t, v in zip(tgt.elts, val.elts) if isinstance(t, ast.Name)]
+            for name, v in pairs:
+                if name not in role:
+                    continue
+                r = role[name]
+                vt = rz.term(v, st, keep=names)
+                if isinstance(vt, ast.Call) and U(vt.func) in ("self.get_sample", "self.get_probabilities"):
+                    nc = rz.norm_call(vt)
+                    kw = {k.arg: U(k.value) for k in nc.keywords}
+                    pos = [U(a) for a in nc.args]
+                    want = "self.get_sample" if r == "sample" else "self.get_probabilities"
+                    if U(vt.func) != want:
+                        problems.append(f"`{name}` is read with {U(vt.func)}")
+                    ops[r].append(("get", kw.get("burn", pos[0] if pos else "<default>"), kw.get("thin", pos[1] if len(pos) > 1 else "1")))
+                    continue
+                chain = _peel(vt, name)
+                if chain is None:
+                    problems.append(f"`{U(st)}` is not a row re-indexing of `{name}`")
+                    continue
+                for idx in chain:
+                    ops[r].append(("idx", idx, None))
     visit(fn.body, [])
 
     def normalise(lst):
@@ -177,34 +210,34 @@ def _parallel(prog, c, fn):
         for op in lst:
             if op[0] == "idx" and res and res[-1][0] == "get" and res[-1][2] == "1" and op[1].startswith("::"):
                 # X[b::1][::t] == X[b::t]
-                res[-1] = ("get", res[-1][1], op[1][2:], res[-1][3])
+                res[-1] = ("get", res[-1][1], op[1][2:])
             else:
                 res.append(op)
-        return [(o[0], o[1], o[2]) for o in res]
+        return res
     ns, np_ = normalise(ops["sample"]), normalise(ops["probs"])
     ok = not problems and ns == np_ and len(ns) >= 3
     out.append(struct_ob("parallel-arrays", qual(c, fn), ok,
                          f"sample and probs must undergo the same row selections in the same order; sample: {ns}; probs: {np_}; {problems}",
                          rel, fn.lineno, slots={"sample_ops": ns, "probs_ops": np_}))
-    # the cut: ascending argsort of probs, keep [cutoff:], cutoff = int(size*(1-interval))
-    src = {}
-    for st in ast.walk(fn):
-        if isinstance(st, ast.Assign) and len(st.targets) == 1 and isinstance(st.targets[0], ast.Name):
-            src.setdefault(st.targets[0].id, []).append(st.value)
+    # the cut: ascending argsort of probs, then keep [cutoff:], cutoff = int(size * (1 - interval))
+    idxs = [o[1] for o in ns if o[0] == "idx"]
     okc, why = False, ""
-    try:
-        sorter = src["sorter"][0]
-        c1 = U(sorter) == "probs.argsort()"
-        ex = Expander(prog, c.module, c)
-        cut = ex.eval(src["cutoff"][0], {"probs": R.sym("probs"), "interval": R.sym("interval")})
-        want = anf.fn_("int", R.sym("size(probs)") * (R.const(1) - R.sym("interval")))
-        c2 = cut.eq(want)
-        idxs = [o[1] for o in ns if o[0] == "idx"]
-        c3 = "sorter" in idxs and "cutoff:" in idxs and idxs.index("sorter") < idxs.index("cutoff:")
-        okc = c1 and c2 and c3
-        why = f"argsort ascending={c1}; cutoff form={c2} ({cut}); order sorter-then-cut={c3}"
-    except (KeyError, IndexError, Exception) as e:
-        why = f"could not resolve sorter/cutoff: {e}"
+    sort_pos = [k for k, t in enumerate(idxs) if t in (f"{names[1]}.argsort()", f"argsort({names[1]})")]
+    cut_pos = [k for k, t in enumerate(idxs) if t.endswith(":") and not t.startswith(":")]
+    if sort_pos and cut_pos and sort_pos[0] < cut_pos[0]:
+        cut_txt = idxs[cut_pos[0]][:-1]
+        try:
+            ct = ast.parse(cut_txt, mode="eval").body
+            ab, seen = abstract(ct, [("_p.size", "N"), ("len(_p)", "N"), ("_p.shape[0]", "N")])
+            ex = Expander(prog, c.module, c)
+            cut = ex.eval(ab, {"N": R.sym("N"), "interval": R.sym("interval")})
+            okc = cut.eq(anf.fn_("int", R.sym("N") * (R.const(1) - R.sym("interval")))) \
+                and all(names[1] in t_ for ts in seen.values() for t_ in ts)
+            why = f"ascending argsort then cut at `{cut_txt[:120]}`"
+        except Exception as e:
+            why = f"cut index `{cut_txt[:120]}` not understood: {e}"
+    else:
+        why = f"row selections {idxs}: no ascending argsort of the log-probabilities followed by a `[cutoff:]` cut"
     out.append(struct_ob("interval-cut", qual(c, fn), okc,
                          "the interval must keep the top `interval` fraction of the ascending sort by log-probability: " + why,
                          rel, fn.lineno))
